@@ -1238,4 +1238,312 @@ theorem oiHelper_derange (d : Domain F) (xs : List F) (k : Nat) (hk : k ≤ 64) 
   exact this
 
 end OI2
+
+/-! ## 9. the degree-aware path -/
+
+/-- the `num_coeffs` computation of `degree_aware_fft_in_place`: `2^⌈log₂ m⌉` (1 for `m = 0`) -/
+theorem numCoeffs_eq (m : Nat) (h64 : log2 m < 64) :
+    (if isPowerOfTwo m then some m else checkedNextPowerOfTwo m) = some (2 ^ log2 m) := by
+  by_cases hp : isPowerOfTwo m = true
+  · rw [if_pos hp]
+    have hm : m ≠ 0 := by
+      intro h; subst h; simp [isPowerOfTwo] at hp
+    have : 2 ^ m.log2 = m := by
+      unfold isPowerOfTwo at hp; simpa [hm] using hp
+    unfold log2
+    rw [if_neg hm, if_pos hp, this]
+  · rw [if_neg hp]
+    unfold checkedNextPowerOfTwo
+    by_cases h1 : m ≤ 1
+    · rw [if_pos h1]
+      have : m = 0 := by
+        rcases Nat.lt_or_ge m 1 with h | h
+        · omega
+        · have : m = 1 := by omega
+          subst this
+          exact absurd (by decide) hp
+      subst this
+      rfl
+    · rw [if_neg h1]
+      simp only []
+      rw [if_pos]
+      unfold U64
+      exact Nat.pow_lt_pow_right (by omega) h64
+
+theorem le_two_pow_log2 (m : Nat) : m ≤ 2 ^ log2 m := by
+  unfold log2
+  by_cases hm : m = 0
+  · simp [hm]
+  · rw [if_neg hm]
+    by_cases hp : isPowerOfTwo m = true
+    · rw [if_pos hp]
+      have : 2 ^ m.log2 = m := by
+        unfold isPowerOfTwo at hp; simpa [hm] using hp
+      omega
+    · rw [if_neg hp]
+      exact Nat.le_of_lt Nat.lt_log2_self
+
+theorem log2_le_of_le (m k : Nat) (h : m ≤ 2 ^ k) : log2 m ≤ k := by
+  unfold log2
+  by_cases hm : m = 0
+  · simp [hm]
+  · rw [if_neg hm]
+    by_cases hp : isPowerOfTwo m = true
+    · rw [if_pos hp]
+      have : 2 ^ m.log2 = m := by
+        unfold isPowerOfTwo at hp; simpa [hm] using hp
+      rw [← this] at h
+      exact (Nat.pow_le_pow_iff_right (by omega)).mp h
+    · rw [if_neg hp]
+      have hne : m ≠ 2 ^ k := by
+        intro h'
+        apply hp
+        rw [h']; exact isPowerOfTwo_two_pow k
+      have : m < 2 ^ k := by omega
+      have := (Nat.log2_lt hm).mpr this
+      omega
+
+theorem brev_mul_pow (e j c : Nat) : brev (e + j) (c * 2 ^ j) = brev e c := by
+  induction j with
+  | zero => simp
+  | succ j ih =>
+    rw [show e + (j + 1) = (e + j) + 1 by omega, show c * 2 ^ (j + 1) = 2 * (c * 2 ^ j) by
+      rw [pow_succ]; ring, brev_even, ih]
+
+section DA
+variable {F : Type} [CommRing F]
+
+omit [CommRing F] in
+theorem range_mul_flatten (a b : Nat) (f : Nat → F) :
+    (List.range (a * b)).map f
+      = ((List.range a).map (fun c => (List.range b).map (fun t => f (c * b + t)))).flatten := by
+  induction a with
+  | zero => simp
+  | succ a ih =>
+    rw [Nat.succ_mul, List.range_add, List.map_append, ih, List.range_succ, List.map_append,
+      List.flatten_append, List.map_map]
+    simp
+
+omit [CommRing F] in
+theorem dupChunks_nil (dup fuel : Nat) : dupChunks dup fuel ([] : List F) = [] := by
+  cases fuel <;> rfl
+
+theorem dupChunks_flatten (dup : Nat) (hd : 0 < dup) (cs : List (List F))
+    (hcs : ∀ c ∈ cs, c.length = dup) (fuel : Nat) (hf : cs.length ≤ fuel) :
+    dupChunks dup fuel cs.flatten = (cs.map (fun c => List.replicate dup (c.headD 0))).flatten := by
+  induction cs generalizing fuel with
+  | nil => simp [dupChunks_nil]
+  | cons c cs ih =>
+    cases fuel with
+    | zero => simp at hf
+    | succ fuel =>
+      have hc := hcs c (by simp)
+      cases c with
+      | nil => simp at hc; omega
+      | cons a c' =>
+        have ht : ((a :: c') ++ cs.flatten).take dup = a :: c' := by rw [← hc, List.take_left]
+        have hdr : ((a :: c') ++ cs.flatten).drop dup = cs.flatten := by rw [← hc, List.drop_left]
+        rw [List.flatten_cons, List.cons_append, dupChunks, ← List.cons_append, ht, hdr,
+          ih (fun c hc => hcs c (by simp [hc])) fuel (by simpa using hf)]
+        rw [List.map_cons (l := cs), List.flatten_cons, List.map_const', ← hc]
+        rfl
+
+end DA
+
+section DA2
+variable {F : Type} [CommRing F]
+
+theorem headD_map_range (n : Nat) (hn : 0 < n) (g : Nat → F) :
+    ((List.range n).map g).headD 0 = g 0 := by
+  obtain ⟨n', rfl⟩ : ∃ n', n = n' + 1 := ⟨n - 1, by omega⟩
+  rw [List.range_succ_eq_map]; simp
+
+theorem getD_resize_ge (c : List F) (n i : Nat) (h : c.length ≤ i) : (resize c n 0).getD i 0 = 0 := by
+  unfold resize
+  rw [List.getD_eq_getElem?_getD, List.getElem?_append_right (by rw [List.length_take]; omega),
+    List.getElem?_replicate]
+  split <;> rfl
+
+/-- the partial bit-reversal pass of `degree_aware_fft_in_place` (only `idx < 2^e` are visited) is the
+    full bit-reversal permutation when everything from `2^e` on is zero -/
+theorem partial_swapPass (X : List F) (k e : Nat) (hk : k ≤ 64) (he : e ≤ k) (hX : X.length = 2 ^ k)
+    (hz : ∀ i, 2 ^ e ≤ i → X.getD i 0 = 0) :
+    (swapPass (fun i => bitrev i k) (List.range (2 ^ e)) X.toArray).toList
+      = (List.range (2 ^ k)).map (fun i => X.getD (brev k i) 0) := by
+  have hle : 2 ^ e ≤ 2 ^ k := Nat.pow_le_pow_right (by omega) he
+  rw [swapPass_congr (fun i => bitrev i k) (brev k) _
+    (fun i hi => bitrev_eq k i hk (by have := List.mem_range.mp hi; omega)), List.range_eq_range']
+  obtain ⟨h1, h2⟩ := swapPass_range' (brev k) (2 ^ k) X.toArray (fun i _ => brev_lt k i)
+    (fun i hi => brev_brev k i hi) (2 ^ e) 0 X.toArray (by omega) (by simpa using hX)
+    (fun i _ => by simp)
+  have hget : ∀ i, i < 2 ^ k → X[i]? = some (X.getD i 0) := by
+    intro i hi
+    rw [List.getD_eq_getElem?_getD, List.getElem?_eq_getElem (by omega)]; simp
+  apply List.ext_getElem?
+  intro i
+  by_cases hi : i < 2 ^ k
+  · have := h2 i hi
+    rw [Array.getElem?_toList] at *
+    rw [this]
+    simp only [List.getElem?_toArray, Nat.zero_add]
+    rw [List.getElem?_map, List.getElem?_range hi, Option.map_some, hget _ (brev_lt k i)]
+    by_cases hc : i < 2 ^ e ∨ brev k i < 2 ^ e
+    · rw [if_pos hc]
+    · rw [if_neg hc, hget i hi, hz i (by omega), hz (brev k i) (by omega)]
+  · rw [List.getElem?_eq_none (by simp [h1]; omega), List.getElem?_eq_none (by simp; omega)]
+
+theorem eval_decim_zero (x : Nat → F) (m s b : Nat) (hm : 0 < m)
+    (hz : ∀ i, s ≤ i → x i = 0) (y : F) : eval (decim x m s b) y = x b := by
+  unfold decim
+  rw [eval_eq_sum, Finset.sum_eq_single 0]
+  · simp
+  · intro u _ hu
+    rw [hz (b + u * s) (by
+      have : 1 ≤ u := Nat.pos_of_ne_zero hu
+      nlinarith)]
+    simp
+  · intro h; simp at h; omega
+
+/-- after the partial bit reversal and the duplication the array is the state of `oi_helper` on entry
+    to the pass with `gap = dup` (for the zero-padded input) -/
+theorem dup_state (x : Nat → F) (k e : Nat) (he : e ≤ k) (w : F) (hz : ∀ i, 2 ^ e ≤ i → x i = 0) :
+    (if 2 ^ (k - e) > 1 then
+        dupChunks (2 ^ (k - e)) ((List.range (2 ^ k)).map (fun i => x (brev k i))).length
+          ((List.range (2 ^ k)).map (fun i => x (brev k i)))
+      else (List.range (2 ^ k)).map (fun i => x (brev k i)))
+      = (oiState k w x (k - e)).flatten := by
+  obtain ⟨j, hj⟩ : ∃ j, k - e = j := ⟨_, rfl⟩
+  have hkej : k = e + j := by omega
+  have hpow : 2 ^ k = 2 ^ e * 2 ^ j := by rw [hkej, pow_add]
+  have hR : (oiState k w x j).flatten
+      = ((List.range (2 ^ e)).map (fun c => List.replicate (2 ^ j) (x (brev e c)))).flatten := by
+    unfold oiState
+    rw [show k - j = e by omega, brU_eq, List.map_map]
+    congr 1
+    apply List.map_congr_left
+    intro c _
+    simp only [Function.comp]
+    rw [show List.replicate (2 ^ j) (x (brev e c))
+        = (List.range (2 ^ j)).map (fun _ => x (brev e c)) by rw [List.map_const', List.length_range]]
+    apply List.map_congr_left
+    intro t _
+    exact eval_decim_zero x _ _ _ (by positivity) hz _
+  rw [hj, hR]
+  have hL : (List.range (2 ^ k)).map (fun i => x (brev k i))
+      = ((List.range (2 ^ e)).map (fun c => (List.range (2 ^ j)).map
+          (fun t => x (brev k (c * 2 ^ j + t))))).flatten := by
+    rw [hpow, range_mul_flatten]
+  by_cases hdup : 2 ^ j > 1
+  · rw [if_pos hdup, List.length_map, List.length_range, hL,
+      dupChunks_flatten (2 ^ j) (by positivity) _ ?_ _ ?_, List.map_map]
+    · congr 1
+      apply List.map_congr_left
+      intro c _
+      simp only [Function.comp]
+      rw [headD_map_range _ (by positivity), Nat.add_zero, hkej, brev_mul_pow]
+    · intro c hc
+      obtain ⟨b, _, rfl⟩ := List.mem_map.mp hc
+      simp
+    · rw [List.length_map, List.length_range]; exact Nat.pow_le_pow_right (by omega) he
+  · rw [if_neg hdup, hL]
+    have hj0 : j = 0 := by
+      rcases Nat.eq_zero_or_pos j with h | h
+      · exact h
+      · have := Nat.one_lt_two_pow (n := j) (by omega); omega
+    subst hj0
+    congr 1
+    apply List.map_congr_left
+    intro c _
+    simp [hkej]
+
+end DA2
+
+section DA3
+variable {F : Type} [CommRing F] [DecidableEq F]
+
+/-- `degree_aware_fft_in_place` computes the values on the domain (for every input not longer than the
+    domain whose padded length is representable) -/
+theorem degreeAwareFft_spec (d : Domain F) (c : List F) (k : Nat) (hk : k ≤ 64) (hd : d.size = 2 ^ k)
+    (hlog : d.logSizeOfGroup = k) (hc : c.length ≤ d.size) (h64 : log2 c.length < 64)
+    (hg : k = 0 ∨ d.groupGen ^ 2 ^ (k - 1) = -1) :
+    degreeAwareFft d c = .ok ((elements d).map (eval c)) := by
+  obtain ⟨hlen, hev⟩ := coset_scale d c
+  unfold degreeAwareFft
+  generalize (if d.offset ≠ 1 then distributePowers c d.offset else c) = c1 at hlen hev ⊢
+  simp only []
+  rw [hlen, numCoeffs_eq c.length h64]
+  simp only []
+  generalize he : log2 c.length = e at h64
+  have hek : e ≤ k := by rw [← he]; exact log2_le_of_le _ _ (by rw [← hd]; exact hc)
+  have hme : c.length ≤ 2 ^ e := by rw [← he]; exact le_two_pow_log2 _
+  rw [log2_two_pow, hlog, if_neg (by omega), hd]
+  have hXlen : (resize c1 (2 ^ k) 0).length = 2 ^ k := length_resize _ _ _
+  have hz : ∀ i, 2 ^ e ≤ i → (resize c1 (2 ^ k) 0).getD i 0 = 0 := by
+    intro i hi; exact getD_resize_ge c1 _ i (by omega)
+  rw [partial_swapPass _ k e hk hek hXlen hz, dup_state _ k e hek d.groupGen hz,
+    oiHelper_from d k hd d.groupGen hg _ (k - e) (by omega), ← list_eq_map_getD _ _ hXlen,
+    elements_eq, hd, List.map_map]
+  congr 1
+  apply List.map_congr_left
+  intro t _
+  simp only [Function.comp]
+  rw [eval_resize _ _ _ (by rw [hlen, ← hd]; exact hc), hev]
+
+end DA3
+
+section R2
+variable {F : Type} [CommRing F] [DecidableEq F]
+
+theorem log2_lt_of_threshold (m k : Nat) (hk : k ≤ 64) (h : m * 4 ≤ 2 ^ k) : log2 m < 64 := by
+  rcases Nat.eq_zero_or_pos m with h0 | hpos
+  · subst h0; simp [log2]
+  · have hk2 : 2 ≤ k := by
+      by_contra hlt
+      have : k = 0 ∨ k = 1 := by omega
+      rcases this with rfl | rfl <;> simp at h <;> omega
+    obtain ⟨k', rfl⟩ : ∃ k', k = k' + 2 := ⟨k - 2, by omega⟩
+    have : m ≤ 2 ^ k' := by
+      rw [pow_add] at h; omega
+    have := log2_le_of_le m k' this
+    omega
+
+/-- full-size path on a short input: zero padding does not change the polynomial -/
+theorem inOrderFft_resize (d : Domain F) (c : List F) (k : Nat) (hk : k ≤ 64) (hd : d.size = 2 ^ k)
+    (hc : c.length ≤ d.size) (hg : k = 0 ∨ d.groupGen ^ 2 ^ (k - 1) = -1) :
+    inOrderFft d (resize c d.size 0) = (elements d).map (eval c) := by
+  rw [inOrderFft_spec d _ k hk hd (length_resize _ _ _) hg]
+  apply List.map_congr_left
+  intro y _
+  exact eval_resize c _ y hc
+
+/-- item 8: below the threshold the degree-aware path returns what the full path returns -/
+theorem degreeAware_eq_full (d : Domain F) (c : List F) (k : Nat) (hk : k ≤ 64) (hd : d.size = 2 ^ k)
+    (hlog : d.logSizeOfGroup = k) (hthr : c.length * DEGREE_AWARE_FFT_THRESHOLD_FACTOR ≤ d.size)
+    (hg : k = 0 ∨ d.groupGen ^ 2 ^ (k - 1) = -1) :
+    degreeAwareFft d c = .ok (inOrderFft d (resize c d.size 0)) := by
+  unfold DEGREE_AWARE_FFT_THRESHOLD_FACTOR at hthr
+  have hc : c.length ≤ d.size := by omega
+  rw [degreeAwareFft_spec d c k hk hd hlog hc (log2_lt_of_threshold _ k hk (by rw [← hd]; exact hthr)) hg,
+    inOrderFft_resize d c k hk hd hc hg]
+
+theorem radix2Fft_spec (d : Domain F) (c : List F) (k : Nat) (hk : k ≤ 64) (hd : d.size = 2 ^ k)
+    (hlog : d.logSizeOfGroup = k) (hc : c.length ≤ d.size)
+    (hg : k = 0 ∨ d.groupGen ^ 2 ^ (k - 1) = -1) :
+    radix2Fft d c = .ok ((elements d).map (eval c)) := by
+  unfold radix2Fft
+  by_cases hthr : c.length * DEGREE_AWARE_FFT_THRESHOLD_FACTOR ≤ d.size
+  · rw [if_pos hthr, degreeAware_eq_full d c k hk hd hlog hthr hg, inOrderFft_resize d c k hk hd hc hg]
+  · rw [if_neg hthr, inOrderFft_resize d c k hk hd hc hg]
+
+theorem radix2Fft_long (d : Domain F) (c : List F)
+    (hpos : 0 < d.size) (hc : d.size < c.length) :
+    radix2Fft d c = radix2Fft d (c.take d.size) := by
+  unfold radix2Fft DEGREE_AWARE_FFT_THRESHOLD_FACTOR
+  rw [if_neg (by omega), if_neg (by rw [List.length_take]; omega)]
+  unfold resize
+  rw [List.take_take, Nat.min_self, List.length_take]
+  congr 4
+  omega
+
+end R2
 end Ark.Fft.A
